@@ -17,6 +17,7 @@ import (
 	"github.com/nuetzliches/hookaido/internal/verifkit/lin"
 	"github.com/nuetzliches/hookaido/internal/verifkit/qmodel"
 	"github.com/nuetzliches/hookaido/internal/verifkit/sched"
+	"github.com/nuetzliches/hookaido/internal/verifkit/vsql"
 )
 
 // Step of a thread script. Lease "own" / Leases containing "own" are replaced by the lease handle(s) the thread got
@@ -29,6 +30,8 @@ type Step struct {
 type Thread struct {
 	Name  string
 	Steps []Step
+	// Second: the thread works through the second store handle (Scenario.SecondHandle).
+	Second bool
 }
 
 type Scenario struct {
@@ -40,6 +43,10 @@ type Scenario struct {
 	// Ticks: a clock thread advances virtual time by each duration in turn, only while no operation is in flight.
 	Ticks []time.Duration
 	Dir   string // scratch directory for SQLite
+	// SecondHandle (sqlite only): a second SQLiteStore with DEFAULT options is opened on the same file, the way the MCP
+	// server's direct mode does next to a running gateway; statements outside write transactions become scheduling
+	// points (vsql statement mode).
+	SecondHandle bool
 	// Wrap lets a harness put a layer (e.g. pullapi) between the scripts and the store; nil = Store calls.
 }
 
@@ -60,7 +67,7 @@ func Body(sc Scenario) (func(x *sched.Exec), *Recorded) {
 	rec := &Recorded{}
 	body := func(x *sched.Exec) {
 		c := sc.Cfg
-		var st queue.Store
+		var st, st2 queue.Store
 		var closeFn func()
 		switch sc.Backend {
 		case "memory":
@@ -68,6 +75,7 @@ func Body(sc Scenario) (func(x *sched.Exec), *Recorded) {
 			closeFn = func() {}
 		case "sqlite":
 			os.MkdirAll(sc.Dir, 0o755)
+			vsql.SetStatementPoints(sc.SecondHandle)
 			p := filepath.Join(sc.Dir, "q.db")
 			for _, suf := range []string{"", "-wal", "-shm"} {
 				os.Remove(p + suf)
@@ -83,9 +91,26 @@ func Body(sc Scenario) (func(x *sched.Exec), *Recorded) {
 			}
 			st = s
 			closeFn = func() { s.Close() }
+			if sc.SecondHandle {
+				s2, err := queue.NewSQLiteStore(p)
+				if err != nil {
+					x.Err = fmt.Errorf("open second sqlite handle: %w", err)
+					s.Close()
+					return
+				}
+				for _, l := range queue.VerifSilentLocks(s2) {
+					x.Silence(l)
+				}
+				st2 = s2
+				closeFn = func() { s2.Close(); s.Close(); vsql.SetStatementPoints(false) }
+			}
 		}
 		var clk int64 // unused by the store (it reads the bubble clock); the driver wants a clock pointer
 		drv := qmodel.NewDriver(st, &clk)
+		drv2 := drv
+		if st2 != nil {
+			drv2 = drv.On(st2)
+		}
 		start := time.Now()
 		cfg := c
 		if sc.Backend == "sqlite" {
@@ -144,7 +169,12 @@ func Body(sc Scenario) (func(x *sched.Exec), *Recorded) {
 					call := logN
 					logN++
 					inflight++
-					obs := drv.Do(op)
+					var obs *qmodel.Obs
+					if th.Second {
+						obs = drv2.Do(op)
+					} else {
+						obs = drv.Do(op)
+					}
 					inflight--
 					ret := logN
 					logN++
